@@ -63,8 +63,7 @@ def run(tier, replay=None):
         chk.sample({"family": cases[-1]['group'], "variant": cases[-1]['id'], "source": cases[-1]['src'][-300:]})
         chk.assumptions += ["agreement between placements is the property; a family where all placements agree with each other but not with "
                             "XLang (machine mode) is counted, not reported (that is C01's subject)"]
-        if ngroups < 1000:
-            raise vlib.MachineryError("vacuity: too few families in domain")
+        chk.vacuity(ngroups < 1000, "too few families in domain")
     finally:
         shutil.rmtree(d, ignore_errors=True)
     return chk.finish()
